@@ -1,4 +1,5 @@
 import Aiortc.Model.Router
+import Aiortc.Model.RouterDelivery
 import Aiortc.Drv.Util
 /-! Driver for the `RtpRouter` model.
 
@@ -14,7 +15,15 @@ fb:<fmt>:<ssrc>:<media>        RtcpRtpfbPacket
 ps:<fmt>:<ssrc>:<media>:<fci hex>   RtcpPsfbPacket
 ```
 Reply: `<out>;<out>;…|<final state>`; sets and dicts are printed sorted. Also
-`router remb <hex>` → `Outcome.tag` of `unpackRembFci`. -/
+`router remb <hex>` → `Outcome.tag` of `unpackRembFci`.
+
+Transport level (Model/RouterDelivery.lean): `router deliver <rev> <scripts> <items>`
+* `<rev>` = `0`/`1`: iteration order of a recipient set (as built / reversed)
+* `<scripts>` = `-` or `;`-separated `R<id>@<nth>=<tableop>/<tableop>/…` (resp. `S<id>@…`): the table operations
+  (`rr`/`rs`/`ur`/`us` as above) performed while that endpoint handles the `nth` packet handed to it
+* `<items>` = `-` or `;`-separated table operations, `p:<ssrc>:<pt>` (one RTP datagram) and RTCP datagrams
+  (`&`-separated RTCP packets)
+Reply: one `<out>` per table operation / RTP datagram / RTCP *packet processed*, `;`-separated, `|<final state>`. -/
 namespace Aiortc.Drv.Router
 open Aiortc Aiortc.Drv Aiortc.Model.Router
 
@@ -68,7 +77,58 @@ def showState (st : Router) : String :=
   ++ " pt=" ++ showList (fun (e : Nat × List Nat) =>
         toString e.1 ++ ">" ++ "+".intercalate ((sortNat e.2).map toString)) (sortKey st.ptTable)
 
+def toTableOp? : Op → Option TableOp
+  | .regReceiver r ssrcs pts mid => some (.regReceiver r ssrcs pts mid)
+  | .regSender s ssrc => some (.regSender s ssrc)
+  | .unregReceiver r => some (.unregReceiver r)
+  | .unregSender s => some (.unregSender s)
+  | _ => none
+
+def parseWho? (s : String) : Option Recipient :=
+  if s.startsWith "R" then (parseNat? (s.drop 1).toString).map .receiver
+  else if s.startsWith "S" then (parseNat? (s.drop 1).toString).map .sender
+  else none
+
+def parseScript? (s : String) : Option Script :=
+  match s.splitOn "=" with
+  | [lhs, rhs] =>
+    match lhs.splitOn "@" with
+    | [who, nth] => do
+      let who ← parseWho? who
+      let nth ← parseNat? nth
+      let ops ← if rhs = "" then some [] else (rhs.splitOn "/").mapM (fun o => (parseOp? o).bind toTableOp?)
+      pure ⟨who, nth, ops⟩
+    | _ => none
+  | _ => none
+
+def parseItem? (s : String) : Option TOp :=
+  match s.splitOn "&" with
+  | [one] =>
+    match parseOp? one with
+    | some (.rtp ssrc pt) => some (.rtpData ssrc pt)
+    | some (.rtcp p) => some (.rtcpData [p])
+    | some op => (toTableOp? op).map .table
+    | none => none
+  | many => do
+    let pkts ← many.mapM (fun o => match parseOp? o with | some (.rtcp p) => some p | _ => none)
+    pure (.rtcpData pkts)
+
+def showTOut : TOut → List String
+  | .unit => ["-"]
+  | .rtp none => ["N"]
+  | .rtp (some r) => ["R" ++ toString r]
+  | .rtcp outs => outs.map (fun o => o.tag showRecipients)
+
 def handleTop : List String → String
+  | ["deliver", rev, scripts, items] =>
+    let sl := if scripts = "-" then some [] else (scripts.splitOn ";").mapM parseScript?
+    let il := if items = "-" then some [] else (items.splitOn ";").mapM parseItem?
+    match sl, il with
+    | some sl, some il =>
+      let order : List Recipient → List Recipient := if rev = "1" then List.reverse else id
+      let (ts, outs) := trun sl order TState.fresh il
+      ";".intercalate (outs.flatMap showTOut) ++ "|" ++ showState ts.router
+    | _, _ => "bad-op"
   | ["run", ops] =>
     let opl := if ops = "-" then some [] else (ops.splitOn ";").mapM parseOp?
     match opl with
